@@ -249,7 +249,23 @@ def run(ctx):
                                env=env, timeout=1800)
             if p.returncode != 0:
                 raise core.Inconclusive("rpch failed: " + p.stderr.decode()[-2000:])
+    # gate walk: random scheduling at critical-section granularity (same trace format)
+    gw = os.path.join(ctx.scratch, "gatewalk.ndjson")
+    ngw = 0 if ctx.replay else (150 if quick else 2000)
+    if ngw:
+        with open(gw, "wb") as f:
+            p = subprocess.run([h, "run", str(ngw), str(ctx.seed + 7919), "8"], stdout=f, stderr=subprocess.PIPE,
+                               env=dict(env, RPCH_MODE="gatewalk"), timeout=3600)
+            if p.returncode != 0:
+                raise core.Inconclusive("rpch gatewalk failed: " + p.stderr.decode()[-2000:])
     scs = [json.loads(l) for l in open(out) if l.strip()]
+    if ngw:
+        for l in open(gw):
+            if l.strip():
+                sc = json.loads(l)
+                sc["scenario"] += 1000000
+                sc["gatewalk"] = True
+                scs.append(sc)
     if ctx.replay:
         for k, sc in enumerate(scs):
             sc["scenario"] = k
@@ -415,6 +431,7 @@ def run(ctx):
         ctx.samples.append({"ops": sc.get("ops"), "events": len(sc.get("events") or []),
                             "first_events": normalize(sc)[:6]})
     ctx.extra["trace_events"] = nev
+    ctx.extra["gatewalk_scenarios"] = ngw
     ctx.extra["design_traces_accepted"] = accepted
     ctx.extra["contract_traces_checked"] = len(good)
 
